@@ -12,8 +12,10 @@ Definition acc_get (a : N) (acc : lm (lm tx)) : lm tx :=
 
 (** The invariant.  [qtx st] is the pool's content in arrival order (hash,
     transaction).  The per-sender index and the latest list are exact views
-    (filter / suffix); the short-hash index is a sub-view here (see
-    [sh_exact] in ProofsShort.v for the exact statement under injectivity). *)
+    (filter / suffix); the short-hash index is a sub-view that is never stale:
+    keys are unique and every entry names a pooled transaction with that short
+    hash ([k_sh_nodup], [k_sh_sub]).  What it covers is stated in ProofsMain.v:
+    [sh_exact] under injectivity, [sh_owner] preservation in general. *)
 Record consistent (sh : N -> N) (c : config) (st : state) : Prop := mkConsistent {
   k_keys : Forall (fun p => fst p = t_h (snd p)) (qtx st);
   k_nodup : NoDup (keys (qtx st));                       (* no two transactions with one hash *)
@@ -173,6 +175,49 @@ Proof.
       * unfold lm_size in *. rewrite app_length. cbn [length] in *. lia.
 Qed.
 
+(** * SHashTxCache.Remove: only the owner's removal deletes the entry *)
+Lemma sh_remove_in sh h (s : lm tx) k t' :
+  NoDup (keys s) -> In (k, t') (sh_remove sh h s) ->
+  In (k, t') s /\ ~ (k = sh h /\ t_h t' = h).
+Proof.
+  intros ND H. unfold sh_remove in H.
+  destruct (lm_get (sh h) s) as [t|] eqn:G.
+  - destruct (N.eqb_spec (t_h t) h) as [E|E].
+    + rewrite (lm_remove_filter _ _ ND) in H. apply filter_In in H as [H Hk].
+      split; [exact H|]. intros [E1 _]. unfold neqk in Hk. cbn [fst] in Hk.
+      subst k. rewrite N.eqb_refl in Hk. discriminate.
+    + split; [exact H|]. intros [E1 E2]. subst k.
+      apply (lm_in_get _ _ _ ND) in H. congruence.
+  - split; [exact H|]. intros [E1 _]. subst k.
+    apply (lm_in_get _ _ _ ND) in H. congruence.
+Qed.
+
+Lemma sh_remove_nodup sh h (s : lm tx) : NoDup (keys s) -> NoDup (keys (sh_remove sh h s)).
+Proof.
+  intros ND. unfold sh_remove. destruct (lm_get (sh h) s) as [t|]; [|exact ND].
+  destruct (N.eqb (t_h t) h); [|exact ND].
+  rewrite (lm_remove_filter _ _ ND). apply keys_filter_nodup. exact ND.
+Qed.
+
+(** an entry whose transaction is not the removed one stays *)
+Lemma sh_remove_get_other sh h (s : lm tx) k t :
+  NoDup (keys s) -> lm_get k s = Some t -> t_h t <> h -> lm_get k (sh_remove sh h s) = Some t.
+Proof.
+  intros ND G Hne. unfold sh_remove.
+  destruct (lm_get (sh h) s) as [t0|] eqn:G0; [|exact G].
+  destruct (N.eqb_spec (t_h t0) h) as [E|E]; [|exact G].
+  rewrite (lm_remove_filter _ _ ND). rewrite lm_get_filter_neqk_other; [exact G|].
+  intros Ek. subst k. rewrite G in G0. inversion G0; subst. contradiction.
+Qed.
+
+(** the owner's removal deletes its entry *)
+Lemma sh_remove_owner sh h (s : lm tx) t :
+  NoDup (keys s) -> lm_get (sh h) s = Some t -> t_h t = h ->
+  sh_remove sh h s = filter (neqk (sh h)) s.
+Proof.
+  intros ND G E. unfold sh_remove. rewrite G, E, N.eqb_refl. apply lm_remove_filter. exact ND.
+Qed.
+
 (** * txCache.Remove *)
 Lemma cache_remove_eq sh h st it :
   lm_get h (s_q st) = Some it ->
@@ -262,14 +307,12 @@ Proof.
     rewrite (sum_filter_neqk sizef h t _ Knd Hin). rewrite Kb. reflexivity.
   - rewrite (cache_remove_eq sh h st it G). cbn [s_fee].
     rewrite (sum_filter_neqk feef h t _ Knd Hin). rewrite Kf. reflexivity.
-  - rewrite (cache_remove_eq sh h st it G). cbn [s_sh]. unfold sh_remove.
-    rewrite (lm_remove_filter _ _ Ksn). apply keys_filter_nodup. exact Ksn.
+  - rewrite (cache_remove_eq sh h st it G). cbn [s_sh]. apply sh_remove_nodup. exact Ksn.
   - intros k t' Hx. rewrite (cache_remove_eq sh h st it G) in Hx. cbn [s_sh] in Hx.
-    unfold sh_remove in Hx. rewrite (lm_remove_filter _ _ Ksn) in Hx.
-    apply filter_In in Hx as [Hx Hk]. destruct (Kss k t' Hx) as [E1 E2].
+    apply (sh_remove_in sh h _ k t' Ksn) in Hx as [Hx Hk]. destruct (Kss k t' Hx) as [E1 E2].
     split; [exact E1|]. apply filter_In. split; [exact E2|].
-    unfold neqk in *. cbn [fst] in *. destruct (N.eqb_spec (t_h t') h) as [E|E]; [|reflexivity].
-    subst k. rewrite E in Hk. rewrite N.eqb_refl in Hk. discriminate.
+    unfold neqk. cbn [fst]. destruct (N.eqb_spec (t_h t') h) as [E|E]; [|reflexivity].
+    exfalso. apply Hk. split; [|exact E]. rewrite E1, E. reflexivity.
 Qed.
 
 (** * txCache.Push *)
